@@ -408,3 +408,191 @@ Proof.
     + apply (dClosed _ _ _ D); auto.
     + intros Hn. destruct (dEnded _ _ _ D _ Hi Hn) as [_ Hq2]. congruence.
 Qed.
+
+Lemma NoDup_app_l {X} (l1 l2 : list X) : NoDup (l1 ++ l2) -> NoDup l1.
+Proof.
+  induction l1 as [|a l1 IH]; simpl; intros H; [constructor|].
+  inversion H; subst. constructor; auto. intros HI; apply H2; apply in_or_app; auto.
+Qed.
+
+Lemma inv_run ls : forall E s s',
+  Inv E s -> NoDup (E ++ enqs ls) -> run s ls = Some s' -> Inv (E ++ enqs ls) s'.
+Proof.
+  induction ls as [|l ls IH]; intros E s s' I ND H; simpl in *.
+  - rewrite app_nil_r. inversion H; subst; auto.
+  - destruct (step s l) as [s1|] eqn:S1; [|discriminate].
+    rewrite app_assoc in *. apply (IH _ s1 s'); auto.
+    apply inv_step with (s := s); auto.
+    apply NoDup_app_l in ND. exact ND.
+Qed.
+
+Lemma inv_reach ls s :
+  converts_once ls [] = true -> run init ls = Some s -> NoDup (enqs ls) /\ Inv (enqs ls) s.
+Proof.
+  intros CO H. apply converts_once_spec in CO. destruct CO as [ND _]. split; auto.
+  apply (inv_run ls [] init s inv_init ND H).
+Qed.
+
+Lemma streams_step s l s' : step s l = Some s' -> length (streams s') = length (streams s) + length (enq_of l).
+Proof.
+  intros H; revert H; destruct l; step_cases; intros H; try discriminate H;
+    inversion H; subst; clear H; prj; cbn [enq_of length];
+    rewrite ?length_set_nth, ?app_length; simpl; lia.
+Qed.
+
+Lemma streams_run ls : forall s s', run s ls = Some s' -> length (streams s') = length (streams s) + length (enqs ls).
+Proof.
+  induction ls as [|l ls IH]; intros s s' H; simpl in *.
+  - inversion H; subst; lia.
+  - destruct (step s l) as [s1|] eqn:S1; [|discriminate].
+    apply IH in H. apply streams_step in S1. rewrite app_length. lia.
+Qed.
+
+(* assoc is the intended association: the stream created by `PToStreamEnq c` (id = length streams at that
+   moment) is the one assoc gives for c, for every extension of the schedule *)
+Theorem assoc_is_creation : forall ls1 ls2 c s1,
+  converts_once (ls1 ++ PToStreamEnq c :: ls2) [] = true -> run init ls1 = Some s1 ->
+  assoc (ls1 ++ PToStreamEnq c :: ls2) c = Some (length (streams s1)).
+Proof.
+  intros ls1 ls2 c s1 CO H. apply converts_once_spec in CO. destruct CO as [ND _].
+  unfold assoc. rewrite enqs_app in *. simpl in *.
+  apply streams_run in H. simpl in H. rewrite H.
+  apply index_of_middle. apply NoDup_remove_2 in ND. intros HI; apply ND; apply in_or_app; auto.
+Qed.
+
+(* before its conversion a receiver has no stream *)
+Theorem assoc_before : forall ls c, ~ In (PToStreamEnq c) ls -> assoc ls c = None.
+Proof.
+  intros ls c N. unfold assoc. apply index_of_None. intros HI. apply N.
+  unfold enqs in HI. apply in_flat_map in HI. destruct HI as [l [HL HI]].
+  destruct l; simpl in HI; try tauto. destruct HI as [->|[]]. exact HL.
+Qed.
+
+Lemma assoc_ok ls s c i :
+  converts_once ls [] = true -> run init ls = Some s -> assoc ls c = Some i ->
+  InvD (enqs ls) (chans s) (streams s) /\ i < length (enqs ls) /\ nth i (enqs ls) 0 = c.
+Proof.
+  intros CO H A. destruct (inv_reach ls s CO H) as [_ [D _]].
+  apply index_of_spec in A. tauto.
+Qed.
+
+Theorem assoc_in_range : forall ls s c i,
+  converts_once ls [] = true -> run init ls = Some s -> assoc ls c = Some i -> i < length (streams s).
+Proof.
+  intros ls s c i CO H A. destruct (assoc_ok ls s c i CO H A) as [D [Hi _]].
+  rewrite (dLen _ _ _ D). exact Hi.
+Qed.
+
+(* ------------------------------------------------------------------ 2. stream contents *)
+
+Theorem stream_exact : forall ls s c i,
+  converts_once ls [] = true -> run init ls = Some s -> assoc ls c = Some i ->
+  yielded (gets s i) ++ items (gets s i) ++ queue (get s c) = sent (get s c).
+Proof.
+  intros ls s c i CO H A. destruct (assoc_ok ls s c i CO H A) as [D [Hi He]].
+  pose proof (dExact _ _ _ D i Hi) as X. rewrite He in X. exact X.
+Qed.
+
+Theorem independent : forall ls s c i x,
+  converts_once ls [] = true -> run init ls = Some s -> assoc ls c = Some i ->
+  In x (yielded (gets s i) ++ items (gets s i)) -> In x (sent (get s c)).
+Proof.
+  intros ls s c i x CO H A HI. rewrite <- (stream_exact ls s c i CO H A).
+  rewrite app_assoc. apply in_or_app. left. exact HI.
+Qed.
+
+(* a receiver that was never converted keeps everything queued *)
+Theorem unconverted_untouched : forall ls s c,
+  converts_once ls [] = true -> run init ls = Some s -> assoc ls c = None ->
+  queue (get s c) = sent (get s c).
+Proof.
+  intros ls s c CO H A. destruct (inv_reach ls s CO H) as [_ [D _]].
+  apply (dUnconv _ _ _ D). intros HI. unfold assoc in A.
+  apply In_nth with (d := 0) in HI. destruct HI as [n [Hn He]].
+  assert (NI : forall l, In c l -> index_of c l <> None).
+  { induction l as [|y t IH]; simpl; [tauto|]. intros [->|HT].
+    - rewrite Nat.eqb_refl; discriminate.
+    - destruct (Nat.eqb y c); [discriminate|]. specialize (IH HT).
+      destruct (index_of c t); [discriminate|tauto]. }
+  apply (NI (enqs ls)); auto. rewrite <- He. apply nth_In; auto.
+Qed.
+
+(* ------------------------------------------------------------------ 3. end of stream *)
+
+Theorem closes_only_when_drained_strong : forall ls s c i,
+  converts_once ls [] = true -> run init ls = Some s -> assoc ls c = Some i ->
+  open (gets s i) = false -> hup (get s c) = true /\ queue (get s c) = [].
+Proof.
+  intros ls s c i CO H A Ho. destruct (assoc_ok ls s c i CO H A) as [D [Hi He]].
+  pose proof (dClosed _ _ _ D i Hi Ho) as X. rewrite He in X. exact X.
+Qed.
+
+Theorem closes_only_when_drained : forall ls s c i,
+  converts_once ls [] = true -> run init ls = Some s -> assoc ls c = Some i ->
+  open (gets s i) = false ->
+  (hup (get s c) = true /\ queue (get s c) = []) \/ i >= length (streams s).
+Proof.
+  intros; left; eapply closes_only_when_drained_strong; eauto.
+Qed.
+
+Theorem end_after_all : forall ls s c i,
+  converts_once ls [] = true -> run init ls = Some s -> assoc ls c = Some i ->
+  ended (gets s i) = true ->
+  hup (get s c) = true /\ queue (get s c) = [] /\ items (gets s i) = [] /\ yielded (gets s i) = sent (get s c).
+Proof.
+  intros ls s c i CO H A Hn. destruct (assoc_ok ls s c i CO H A) as [D [Hi He]].
+  destruct (dEnded _ _ _ D i Hi Hn) as [Ho Hit].
+  change (gs (streams s) i) with (gets s i) in Ho, Hit.
+  destruct (closes_only_when_drained_strong ls s c i CO H A Ho) as [Hh Hq].
+  pose proof (stream_exact ls s c i CO H A) as X.
+  rewrite Hit, Hq in X. simpl in X. rewrite app_nil_r in X. auto.
+Qed.
+
+(* ------------------------------------------------------------------ 4. progress *)
+
+Theorem batch_progress : forall ls s,
+  run init ls = Some s -> ph s = Drain ->
+  (exists s', step s RDrainOne = Some s') \/ (exists s', step s RDrainDone = Some s').
+Proof.
+  intros ls s _ P. unfold step. rewrite P. destruct (regq s) as [|[c i] rest]; eauto.
+Qed.
+
+Theorem poll_total : forall ls s i,
+  run init ls = Some s -> i < length (streams s) -> exists s', step s (CPoll i) = Some s'.
+Proof.
+  intros ls s i _ L. unfold step. apply Nat.ltb_lt in L. rewrite L. cbv zeta.
+  destruct (items (gets s i)); [destruct (open (gets s i))|]; eauto.
+Qed.
+
+(* ------------------------------------------------------------------ sanity: the hypotheses are satisfiable / needed *)
+
+(* a full life cycle: message before conversion, conversion, message after, hang-up, end of stream *)
+Example life_cycle :
+  let ls := [PNewChan; PNewChan; PSend 1 7; PToStreamEnq 1; PToStreamWake; RSelect; REvWake; REndBatch;
+             RDrainOne; RDrainDone; PSend 1 8; PHup 1; RSelect; REvMsg 1; REvMsg 1; REvClosed 1; REndBatch;
+             RDrainDone; CPoll 0; CPoll 0; CPoll 0] in
+  converts_once ls [] = true /\ assoc ls 1 = Some 0 /\ assoc ls 0 = None /\
+  option_map (fun s => (yielded (gets s 0), ended (gets s 0))) (run init ls) = Some ([7; 8], true).
+Proof. vm_compute. repeat split. Qed.
+
+(* converts_once is needed: a receiver converted twice has its messages split over two streams *)
+Example twice_splits :
+  let ls := [PNewChan; PSend 0 7; PSend 0 8; PToStreamEnq 0; PToStreamEnq 0; PToStreamWake; RSelect; REvWake;
+             REndBatch; RDrainOne; RDrainOne; RDrainDone; PToStreamWake; RSelect; REvMsg 1; REvMsg 2] in
+  converts_once ls [] = false /\
+  option_map (fun s => (items (gets s 0), items (gets s 1), queue (get s 0))) (run init ls) = Some ([7], [8], []).
+Proof. vm_compute. repeat split. Qed.
+
+Print Assumptions registered_or_woken.
+Print Assumptions not_stranded.
+Print Assumptions assoc_is_creation.
+Print Assumptions assoc_before.
+Print Assumptions assoc_in_range.
+Print Assumptions stream_exact.
+Print Assumptions independent.
+Print Assumptions unconverted_untouched.
+Print Assumptions end_after_all.
+Print Assumptions closes_only_when_drained_strong.
+Print Assumptions closes_only_when_drained.
+Print Assumptions batch_progress.
+Print Assumptions poll_total.
